@@ -209,38 +209,58 @@ def naming_rule(prog: Program, rep, RID: str):
         else:
             rep.violation(RID, key, f"does not map each node to endpoint [{idx}] = {what} of its expanded edge: a path could "
                           f"{'start after' if idx == 0 else 'end before'} traversing the declared node", f.loc())
-    # constructor wiring of additional starts/ends and ignore list
+    # constructor wiring of additional starts/ends and ignore list: decided on the name-free list of calls of the constructor
+    # (locals substituted, loop variables written as <iterable>)
+    from rules.common import canonical_calls
+    from sa import boolnf as B
     f = prog.own_method(cname, "__init__")
-    src = norm(f.node)
-    checks = [
-        ("start-wiring", r"new_edge = \(self\.global_source_id \+ '\.1', node \+ '\.0',?\)", "global source .1 -> node.0"),
-        ("end-wiring", r"new_edge = \(node \+ '\.1', self\.global_sink_id \+ '\.0',?\)", "node.1 -> global sink .0"),
-        ("edge-copy-ignored", r"self\._edges_to_ignore\.append\(\(pred1, node0\)\)", "every copy of an original edge is ignored"),
+    calls = canonical_calls(f.node)
+    texts = [t for t, c, ln in calls]
+    V = r"<[^<>]*>"          # some loop element
+    wiring = [
+        ("start-wiring", r"self\.add_edges?(_from)?\(\[?\*?\(?self\.global_source_id \+ '\.1', (%s) \+ '\.0',?\)?\]?\)" % V, "global source .1 -> node.0",
+         r"self\.global_source_id \+ '\.[01]', %s \+ '\.[01]'|%s \+ '\.[01]', self\.global_source_id \+ '\.[01]'" % (V, V)),
+        ("end-wiring", r"self\.add_edges?(_from)?\(\[?\*?\(?(%s) \+ '\.1', self\.global_sink_id \+ '\.0',?\)?\]?\)" % V, "node.1 -> global sink .0",
+         r"self\.global_sink_id \+ '\.[01]', %s \+ '\.[01]'|%s \+ '\.[01]', self\.global_sink_id \+ '\.[01]'" % (V, V)),
+        ("edge-copy-ignored", r"self\._edges_to_ignore\.append\(\((<G\.predecessors\(<G\.nodes>\)>) \+ '\.1', <G\.nodes> \+ '\.0'\)\)|"
+                              r"self\._edges_to_ignore\.append\(\(<G\.nodes> \+ '\.1', (<G\.successors\(<G\.nodes>\)>) \+ '\.0'\)\)|"
+                              r"self\._edges_to_ignore\.append\(\((<G\.edges[^<>]*>\[0\]) \+ '\.1', <G\.edges[^<>]*>\[1\] \+ '\.0'\)\)",
+         "every copy of an original edge is ignored", r"_edges_to_ignore\.(append|extend|add)\("),
     ]
-    for k, pat, what in checks:
+    for k, pat, what, related in wiring:
         key = f"{cname}.__init__:{k}"
-        if re.search(pat, src):
-            rep.ok(RID, key, what, f.loc())
+        hit = [t for t in texts if re.search(pat, t)]
+        rel = [t for t in texts if re.search(related, t)]
+        if hit:
+            rep.ok(RID, key, what, f.loc(), sample={"call": hit[0][:120]})
+        elif rel and k != "edge-copy-ignored":
+            rep.violation(RID, key, f"the global terminal is wired as `{rel[0][:120]}`, expected: {what} (paths would enter after / leave before the declared node)", f.loc())
+        elif k == "edge-copy-ignored" and any(re.search(r"self\.add_edge\(<G\.predecessors\(<G\.nodes>\)> \+ '\.1', <G\.nodes> \+ '\.0'", t) or
+                                               re.search(r"self\.add_edge\(<G\.nodes> \+ '\.1', <G\.successors\(<G\.nodes>\)> \+ '\.0'", t) for t in texts):
+            rep.violation(RID, key, "the copies of the original edges are created but not added to the ignore list: their (absent) weights enter the model", f.loc())
         else:
-            rep.violation(RID, key, f"expected construct missing: {what}", f.loc())
-    # node without attribute -> ignored: the append of (node0,node1) is in the else branch of the attribute test
-    ok = False
-    from rules.common import substitute_locals
-    for lp in [n for n in walk_no_nested(f.node) if isinstance(n, ast.For) and isinstance(n.target, ast.Name)]:
-        V = lp.target.id
-        ldefs = {}
-        for s_ in lp.body:
-            if isinstance(s_, ast.Assign) and len(s_.targets) == 1 and isinstance(s_.targets[0], ast.Name):
-                ldefs[s_.targets[0].id] = substitute_locals(s_.value, dict(ldefs))
-        for st in lp.body:
-            if isinstance(st, ast.If) and re.fullmatch(r"self\.node_flow_attr in G\.nodes\[%s\]" % V, norm(substitute_locals(st.test, ldefs))):
-                if any(f"self._edges_to_ignore.append(({V} + '.0', {V} + '.1'))" == norm(substitute_locals(s, ldefs)) for s in st.orelse):
-                    ok = True
+            raise AnalysisError(f"{cname}.__init__: construct not recognised ({what}); calls seen: {[t[:70] for t in texts if 'add_edge' in t or '_edges_to_ignore' in t][:6]}")
+    # node without attribute -> ignored: the append of the node's own expanded edge happens exactly when the attribute is absent
     key = f"{cname}.__init__:missing-attr-ignored"
-    if ok:
-        rep.ok(RID, key, "a node without the attribute has its expanded edge appended to the ignore list", f.loc())
+    has_attr = B.parse(ast.parse("self.node_flow_attr in G.nodes[__N__]", mode="eval").body)
+    own = [(t, c) for t, c, ln in calls if re.fullmatch(r"self\._edges_to_ignore\.append\(\(<G\.nodes> \+ '\.0', <G\.nodes> \+ '\.1'\)\)", t)]
+    if not own:
+        if any("<G.nodes> + '.0', <G.nodes> + '.1'" in t and "add_edge" in t for t in texts):
+            rep.violation(RID, key, "nodes lacking the flow attribute are not added to the ignore list", f.loc())
+        else:
+            raise AnalysisError(f"{cname}.__init__: expansion of the nodes not recognised")
     else:
-        rep.violation(RID, key, "nodes lacking the flow attribute are not added to the ignore list (exactly in the else-branch of the attribute test)", f.loc())
+        cond = B.mk_or([c for t, c in own])
+        base = [c for t, c, ln in calls if re.match(r"self\.add_edge\(<G\.nodes> \+ '\.0', <G\.nodes> \+ '\.1'", t)]
+        if not base:
+            raise AnalysisError(f"{cname}.__init__: creation of the node's own expanded edge not recognised")
+        lacks = [a for a in B.atoms_of(cond) if re.fullmatch(r"self\.node_flow_attr in G\.nodes\[<G\.nodes>\]", a)]
+        want = B.mk_and([B.mk_or(base), B.mk_not(B.atom(lacks[0]))]) if lacks else B.F
+        cond_txt = B.key(cond)
+        if lacks and B.equivalent(cond, want):
+            rep.ok(RID, key, "a node's expanded edge is ignored exactly when the node lacks the flow attribute", f.loc())
+        else:
+            rep.violation(RID, key, f"nodes lacking the flow attribute are not added to the ignore list exactly in that case (condition: {cond_txt[:120]})", f.loc())
     # reader: decoded structurally (names are free); shapes outside the recognised idiom are analysis errors, not violations
     reader_rule(prog, rep, RID, cname)
     # the translators are total: no element of the user's list is dropped on a non-raising path
